@@ -229,3 +229,19 @@ func r1DenyAllowLine(r *rng, names []string, d string) string {
 
 	return t
 }
+
+// r1DotSuffixes: every proper dot-suffix of the names ("co.uk" and "uk" for "test.co.uk"): parents of the
+// hosts, among them the public suffixes they live under.  A `$domain` value may be any of them.
+func r1DotSuffixes(names []string) (out []string) {
+	seen := map[string]bool{}
+	for _, n := range names {
+		for i := 0; i < len(n); i++ {
+			if n[i] == '.' && i+1 < len(n) && !seen[n[i+1:]] && !strings.HasSuffix(n, ".*") {
+				seen[n[i+1:]] = true
+				out = append(out, n[i+1:])
+			}
+		}
+	}
+
+	return out
+}
